@@ -402,13 +402,12 @@ def judge(ctx, subdir, module, rows, invariant="JudgeOK", nshards=None, per_shar
             raise Infra("judge module %s reported %s instead of printing cases:\n%s" % (module, r.violated, r.trace[:3000]))
         if r.distinct != len(shards[k]):
             raise Infra("judge %s: %d states for %d cases (duplicate or unread cases?)" % (module, r.distinct, len(shards[k])))
-        for line in r.printed:
-            m = re.match(r'<<"(\w+)", (\d+)(?:, (.*))?>>$', line)
-            if not m:
-                continue
+        # TLC wraps long tuples over several lines: match over the whole output
+        for m in re.finditer(r'<<\s*"(\w+)",\s*(\d+)(?:,\s*(.*?))?\s*>>', r.out, re.S):
             row = shards[k][int(m.group(2)) - 1]
-            if m.group(3) and isinstance(row, dict):
-                row = dict(row, _info=m.group(3))
+            info = re.sub(r"\s*\n\s*", " ", m.group(3)) if m.group(3) else None
+            if info and isinstance(row, dict):
+                row = dict(row, _info=info)
             if m.group(1) == "BAD":
                 bad.append(row)
             elif m.group(1) == "DRIFT":
